@@ -134,7 +134,7 @@ def av_bench(name, av_dw=32, port_dw=32, max_burst=4, base=0, aw_native=4, gaps=
 CONFIGS = {
     "gaps_equal_32_b4": (dict(av_dw=32, port_dw=32, max_burst=4, gaps=True), 20, 24, "qt"),
     "equal_32_b4": (dict(av_dw=32, port_dw=32, max_burst=4), 20, 30, "qt"),
-    "equal_32_b2_base": (dict(av_dw=32, port_dw=32, max_burst=2, base=0x40), 20, 28, "qt"),
+    "equal_32_b2_base": (dict(av_dw=32, port_dw=32, max_burst=2, base=0x14), 20, 28, "qt"),
     "progress_equal_32_b4": (dict(av_dw=32, port_dw=32, max_burst=4, progress=14), 22, 30, "qt"),
     "progress_equal_32_b2": (dict(av_dw=32, port_dw=32, max_burst=2, progress=12), 0, 28, "t"),
     "wide_32_on_16": (dict(av_dw=32, port_dw=16, max_burst=2), 0, 24, "t"),
